@@ -364,8 +364,10 @@ for _v, _d in (("castling", "O-O / O-O-O"), ("pawn_move", "destination [=promoti
     K("C09/text/%s" % _v.replace("_", "-"), ["C09", "C12"], "moves::san::verif_kani_b::c09_text_%s" % _v, ["<san::Move as Display>::fmt", "san::Data::do_fmt", "san::Move::do_fmt", "<san::Move as FromStr>::from_str", "<san::Data as FromStr>::from_str"],
       "for every SAN value of this variant that from_move can produce (all field values x check marks none / + / #): the text is the standard algebraic notation (%s, then + or #) and parsing it gives the value back (hence distinct values get distinct texts)" % _d,
       timeout=3000, mem_gb=24, mem_est=8)
-K("C12/san/from-str-5", ["C12", "C09", "C02"], "moves::san::verif_kani_b::c12_san_from_str_total_len5", ["<san::Move as FromStr>::from_str", "<san::Data as FromStr>::from_str"],
-  "for all UTF-8 strings of <= 5 bytes: SAN parsing returns a value or an error, never panics", bounded="strings of <= 5 bytes", timeout=2400, mem_gb=24, mem_est=8)
+K("C12/san/from-str-6", ["C12", "C09", "C02"], "moves::san::verif_kani_b::c12_san_from_str_total_len6", ["<san::Move as FromStr>::from_str", "<san::Data as FromStr>::from_str"],
+  "for all UTF-8 strings of <= 6 bytes: SAN parsing returns a value or an error, never panics", bounded="strings of <= 6 bytes", assumes=["C12/utf8-predicate"], timeout=2400, mem_gb=24, mem_est=8)
+K("C12/utf8-predicate", ["C12"], "moves::san::verif_kani_b::c12_utf8_predicate_agrees_with_std", [],
+  "harness-side helper: the byte automaton used to decide UTF-8 validity of symbolic strings agrees with core::str::from_utf8 on every byte string of <= 5 bytes", bounded="byte strings of <= 5 bytes", timeout=2400, mem_gb=24, mem_est=8)
 K("C12/san/from-str", ["C12", "C09", "C02"], SN + "c12_san_from_str_total_len7", ["<san::Move as FromStr>::from_str", "<san::Data as FromStr>::from_str"],
   "for all UTF-8 strings of <= 7 bytes: SAN parsing returns a value or an error, never panics (slicing, from_utf8 unwraps, length arithmetic)", bounded="strings of <= 7 bytes", timeout=3600, mem_gb=32, mem_est=14, tier="thorough")
 
